@@ -147,8 +147,14 @@ func newSim(r *gen.Rand, ver gmsl.RoomVersion) (*sim, *simBranch) {
 	s := &sim{ver: ver, t: t, impl: gmsl.MustGetRoomVersion(ver), r: r, all: map[string]gmsl.PDU{}, users: simUsers, equalTS: r.Chance(0.3)}
 	creator := simUsers[0]
 	cc := ref.O("creator", ref.S(creator), "room_version", ref.S(string(ver)))
+	extraCreator := ""
 	if t.PrivCreators && r.Chance(0.5) {
-		cc.Set("additional_creators", ref.A(ref.S(simUsers[1])))
+		// a second creator: a user of the origin server or of another one
+		extraCreator = simUsers[1]
+		if r.Chance(0.5) {
+			extraCreator = simUsers[2]
+		}
+		cc.Set("additional_creators", ref.A(ref.S(extraCreator)))
 	}
 	if simCreateVersionOverride == "<empty>" {
 		cc.Set("room_version", ref.S("")) // present, but naming no version
@@ -181,7 +187,7 @@ func newSim(r *gen.Rand, ver gmsl.RoomVersion) (*sim, *simBranch) {
 		users.Set(creator, ref.I(100))
 	}
 	for _, u := range simUsers[1:] {
-		if t.PrivCreators && cc.Get("additional_creators") != nil && u == simUsers[1] {
+		if u == extraCreator {
 			continue
 		}
 		if r.Chance(0.6) {
